@@ -4,7 +4,7 @@ import struct
 from common import PropertyCheck, Case, REPO
 import recsfmt as R
 
-NAN_PATTERNS = [0x7FC00000, 0xFFC00000, 0x7F800001, 0xFF800001, 0x7FFFFFFF, 0x7FA00000, 0x7F800000, 0xFF800000,
+NAN_PATTERNS = [0x7FA00001, 0xFFC12345, 0x7FC00000, 0xFFC00000, 0x7F800001, 0xFF800001, 0x7FFFFFFF, 0x7FA00000, 0x7F800000, 0xFF800000,
                 0x00000000, 0x80000000, 0x00000001, 0x3F800000, 0xDEADBEEF, 0x00FF0000, 0x000000FF, 0x01020304]
 NFIELDS = R.N_STRS + R.N_TYPED
 
